@@ -154,6 +154,11 @@ func genC17(seed int64, tier string) []caseOut {
 		// the same request without the type member is a different (still canonical) initial state
 		noType := M{"suffixData": b.request["suffixData"], "delta": b.request["delta"]}
 		addV("state-without-type-member", ns+":"+b.suffix+":"+b64(jcs(noType)), true)
+		// the same request naming another operation type (canonical bytes, so only the type check can refuse it)
+		for _, ty := range []string{"update", "recover", "deactivate", "crea4e", "Create", "create "} {
+			other := M{"type": ty, "suffixData": b.request["suffixData"], "delta": b.request["delta"]}
+			addV("state-other-type-"+ty, ns+":"+b.suffix+":"+b64(jcs(other)), false)
+		}
 		// namespaces related by prefix, short form, foreign suffix
 		addV("namespace-longer", "did:ionx:"+b.suffix+":"+state, false)
 		addV("namespace-shorter", "did:io:"+b.suffix+":"+state, false)
